@@ -25,7 +25,8 @@ def handleMonC20 : Toks → Option String :=
   fun ts => runAll (do
     let _limit ← nat
     let plan ← list (do let s ← nat; let st ← nat; let n ← nat; pure (s, st, n))
+    let marked ← list (do let s ← nat; let st ← nat; pure (s, st))
     let evs ← list evP
-    pure (monC20 plan evs)) ts
+    pure (monC20 plan marked evs)) ts
 
 end Cuke.Driver
